@@ -1,0 +1,29 @@
+//go:build verif
+
+// Contracts for the verification harness in /verif (comment-only; this file
+// adds no executable code). See /verif/DESIGN.md.
+
+package raftstore
+
+// C18/C09: what the store writes for an entry represents that entry
+// (raftRepr, internal/raftlog), is filed under the entry's own index, and
+// what GetLog hands back is the stored form field by field.
+
+//@ func LevelDBStore.GetLog
+//@   assert@call PutUint64#0 : key: callarg2 == index
+//@   assert@return #3 : decoded: len(value) > 0 && value[0] == 'p' ==> raftRepr(addrof(msg), rlog)
+
+//@ func LevelDBStore.StoreLogs
+//@   assert@call PutUint64#0 : key: callarg2 == entry.Index
+//@   assert@call proto.Marshal#0 : encoded: raftRepr(addrof(msg), entry)
+//@   assert@call PutUint64#1 : key: callarg2 == entry.Index
+
+//@ func LevelDBStore.StoreLogProto
+//@   assert@call PutUint64#0 : key: callarg2 == msg.Index
+
+// Conversion from JSON to protobuf keeps every field of the entry and decodes
+// the replicated message with the entry's own index.
+//@ func LevelDBStore.ConvertToProto
+//@   assert@call proto.Marshal#0 : encoded: raftRepr(addrof(rlog), l)
+//@   assert@call NewMessageFromBytes#0 : same-entry: sameslice(callarg0, l.Data) && callarg1 == robust.IdFromRaftIndex(l.Index)
+//@   assert@call proto.Marshal#2 : encoded: rlog.Index == l.Index && rlog.Term == l.Term && rlog.Type == l.Type && sameslice(rlog.Extensions, l.Extensions) && rlog.AppendedAt.AsTime() == l.AppendedAt
